@@ -7,7 +7,7 @@ ID=$1; WT=$2; DEMO=$3; PKG=$4; VAR=${5:-}
 OUT=/verif/seeded/$ID$VAR
 mkdir -p $OUT
 cd $WT || exit 1
-git diff > $OUT/patch.diff
+git diff -- . ":!*zz_demo_test.go" > $OUT/patch.diff
 cp $DEMO $OUT/$(basename $DEMO)
 echo "== build"; go build ./... && echo BUILD-OK
 echo "== existing suite with the change (demo skipped)"
@@ -22,9 +22,13 @@ go test -count=1 -run "TestDemo$ID" $PKG > $OUT/demo_without_change.txt 2>&1; WO
 echo "demo-without-change exit=$WO"
 git apply $OUT/patch.diff
 echo "== check against the change"
-git -C /repo apply $OUT/patch.diff || { echo "PATCH DOES NOT APPLY TO /repo"; exit 1; }
-cd /verif && timeout 1500 ./bin/vcheck run $ID > $OUT/check_output.txt 2>&1; C=$?
-git -C /repo checkout -- .
+# the patch must apply to /repo's current tree; the check itself is pointed at the
+# scratch worktree (same tree + patch) through VERIF_REPO so that long runs against
+# /repo going on in the background are not disturbed
+git -C /repo apply --check $OUT/patch.diff || { echo "PATCH DOES NOT APPLY TO /repo"; exit 1; }
+mv $WT/$DEMO /var/tmp/$(basename $DEMO).$$ 2>/dev/null
+cd /verif && VERIF_REPO=$WT VERIF_DIR=/verif timeout 1500 ./bin/vcheck run ${ID:0:3} > $OUT/check_output.txt 2>&1; C=$?
+mv /var/tmp/$(basename $DEMO).$$ $WT/$DEMO 2>/dev/null
 echo "check exit=$C"; grep -c "^VIOLATION" $OUT/check_output.txt
 head -3 $OUT/check_output.txt | cut -c1-250
 echo "{\"suite_exit\": $SUITE, \"demo_with_change_exit\": $W, \"demo_without_change_exit\": $WO, \"check_exit\": $C}" > $OUT/verify.json
